@@ -4,7 +4,10 @@
 //	C04 HTLC: escrow balance and cross-chain supply counters match the open contracts
 //
 // The machine, its reference model and the oracles live in machine_test.go, the generator in
-// gen_test.go.  TestC03 runs the machine in mode "C03" (only C03 oracle clauses fire, generator
+// gen_test.go.  Besides create / claim / block the histories contain parameter updates of every shape
+// (also delist + relist, (de)activation, lowered limits) and restarts of the module from its own
+// exported genesis (op "reimport"); the model forgets closed contracts at a restart because the htlc
+// genesis carries only open ones.  TestC03 runs the machine in mode "C03" (only C03 oracle clauses fire, generator
 // biased to plain contracts and claim/expiry races), TestC04 in mode "C04" (only C04 clauses,
 // generator biased to cross-chain transfers, limits and limit-window boundaries).
 package c03
@@ -15,9 +18,9 @@ import (
 	"verifharness/pbt"
 )
 
-const c03Rule = "rapid state machine on the K-driver (irismod blockers, consecutive heights): params (authority UpdateParams installing 1-2 HTLT assets) / create (plain 1-3 coins, HTLT incoming by deputy, outgoing to deputy; time lock mostly 50-60, sometimes max; timestamps 0, inside and outside the window; duplicates; hash locks not bound to the timestamp) / claim (right, other contract's, random secret; unknown id; any account) / block(n) biased to stop at expiry-1 and expiry; <=12 contracts, <=260 blocks. non-trivial = history with a claim attempted at height expiry-1 or expiry of its contract, or >=2 contracts refunded in one block, or a second claim / claim after refund, or a duplicate create; distinct by SHA-256 of the op list"
+const c03Rule = "rapid state machine on the K-driver (irismod blockers, consecutive heights): params (authority UpdateParams installing 1-2 HTLT assets) / create (plain 1-3 coins, HTLT incoming by deputy, outgoing to deputy; time lock mostly 50-60, sometimes max; timestamps 0, inside and outside the window; duplicates; hash locks not bound to the timestamp) / claim (right, other contract's, random secret; unknown id; any account) / block(n) biased to stop at expiry-1 and expiry / later parameter updates (compatible edits, delist and relist by separate updates, (de)activation, deputy change, lowered limits, first listing of the second asset) / restart (the htlc module exported, wiped and imported from its own genesis, which carries only open contracts: closed ones are forgotten, ids of forgotten contracts are claimed and re-created afterwards; open plain, incoming and outgoing contracts pending over the restart are followed to claim or expiry); <=12 contracts at a time, <=260 blocks. non-trivial = history with a claim attempted at height expiry-1 or expiry of its contract, or >=2 contracts refunded in one block, or a second claim / claim after refund, or a duplicate create; distinct by SHA-256 of the op list"
 
-const c04Rule = "same machine as C03 with 1-2 HTLT assets whose parameters are drawn from the valid space (limit, time-limited or not, period 1 min-2 h, fee, min/max amount, min/max lock, active, one or two deputies), later compatible parameter changes, block-time steps that land just below / at / above the limit period; checked at every block boundary (after end-block and after begin-block). non-trivial = history with >=1 incoming and >=1 outgoing transfer completed and >=1 limit-window reset of a time-limited asset; distinct by SHA-256 of the op list"
+const c04Rule = "same machine as C03 with 1-2 HTLT assets whose parameters are drawn from the valid space (limit, time-limited or not, period 1 min-2 h, fee, min/max amount, min/max lock, active, one or two deputies), later parameter updates (compatible edits; delisting an asset with live supply / open transfers and relisting it by a separate update with old or new parameters; deactivation and re-activation, deputy change and limits lowered below what is committed while transfers are open; first listing of the second asset while transfers of the first are open; empty list), restarts of the htlc module from its own exported genesis with open transfers and non-zero supplies pending (checked right after the import and at every later boundary), block-time steps that land just below / at / above the limit period; checked at every block boundary (after end-block and after begin-block). non-trivial = history with >=1 incoming and >=1 outgoing transfer completed and >=1 limit-window reset of a time-limited asset; distinct by SHA-256 of the op list"
 
 func init() {
 	pbt.RegisterMachine("c03", newC03)
